@@ -85,9 +85,16 @@ func regName(r *rand.Rand, names ...string) string { return names[r.Intn(len(nam
 
 // genEdit: well-formed registers, arbitrary sequences of editing operations (C08).
 func genEdit(r *rand.Rand, s *scriptWriter, ids []string, length int, rich float64) {
-	o := listOpts{ids: ids, rich: rich, types: edgeTypes2, maxNodes: len(ids)}
-	s.reset(map[string]*sbom.NodeList{"r1": randList(r, o), "r2": randList(r, o), "r3": randList(r, o), "r4": emptyNL()})
+	// well-formed registers; a third of the scripts start from lists that are well-formed but not normalised
+	o := listOpts{ids: ids, rich: rich, types: edgeTypes2, maxNodes: len(ids), parallel: r.Intn(3) == 0}
+	r1, r2 := randList(r, o), randList(r, o)
+	s.reset(map[string]*sbom.NodeList{"r1": r1, "r2": r2, "r3": randList(r, o), "r4": emptyNL()})
 	all := append(append([]string{}, ids...), "nope")
+	if len(r1.Nodes) > 0 && len(r2.RootElements) > 0 && r.Intn(3) == 0 {
+		// graft one list under a node of the other, then edit the grafted list: the two must stay independent
+		s.op("RelateList", "a", "r1", "b", "r2", "at", r1.Nodes[r.Intn(len(r1.Nodes))].Id, "t", int(pick(r, edgeTypes2)))
+		s.op("Remove", "a", "r2", "ids", []string{r2.RootElements[0]})
+	}
 	for j := 0; j < length; j++ {
 		a := regName(r, "r1", "r2", "r3", "r4")
 		b := regName(r, "r1", "r2", "r3", "r4")
@@ -175,6 +182,8 @@ func genLaws(r *rand.Rand, s *scriptWriter, ids []string, rich float64) {
 	s.op("LawEmpty", "a", "iex", "law", "intersect.empty-left")
 	s.op("Intersect", "a", "x", "b", "xy", "out", "ixu")
 	s.op("LawIds", "a", "ixu", "b", "x", "law", "intersect.absorbs-union")
+	// "the same second-operand-wins rule as union": whatever union does with a shared node, intersection does too
+	s.op("LawSameSharedNodes", "a", "ixy", "b", "xy", "law", "intersect.nodes-as-union")
 }
 
 func shuffled(r *rand.Rand, nl *sbom.NodeList) *sbom.NodeList {
@@ -236,7 +245,7 @@ func matchNode(r *rand.Rand, id string) *sbom.Node {
 			if n.Hashes == nil {
 				n.Hashes = map[int32]string{}
 			}
-			n.Hashes[algo] = pick(r, []string{"v", "w"})
+			n.Hashes[algo] = pick(r, []string{"v", "w", "v", "w", ""}) // an empty value is a value: it agrees only with an empty value
 		}
 	}
 	if r.Intn(3) > 0 {
